@@ -17,6 +17,81 @@ def problems(res, jobs, outs, what):
         yield job, rec
 
 
+
+# ---- terminals that may contain the ignored characters (dynamic lexers): every tree the forest encodes must be a *tiling* of the input —
+# tokens in order, disjoint, each matching its terminal, every gap made of ignored text.  (The brute-force derivation oracle above works on single-character tokens.)
+TILE_TERMS = ['/a ?/', '/ *b/', '/a+/', '/[ab]+ ?/', '/ ?c/', '/b+/', '/a[ a]*/', '/c/']
+TILE_FIXED = ['start: A B\nA: /a ?/\nB: / *b/\n%ignore / +/\n', 'start: (A | B)+\nA: /a+ ?/\nB: / ?b+/\n%ignore / +/\n', 'start: x+\nx: A | A B\nA: /a[ a]*/\nB: /b/\n%ignore " "\n']
+
+
+def _tile_case(seed):
+    import re, random, json
+    from lark import Lark, Token, Tree
+    from lark.exceptions import UnexpectedInput, LarkError
+    from lark.parsers.earley_forest import TreeForestTransformer
+    import forestlib
+    from common import guarded, Timeout
+    rng = random.Random(seed)
+    if rng.random() < 0.3:
+        g = rng.choice(TILE_FIXED)
+    else:
+        ts = rng.sample(TILE_TERMS, rng.randint(2, 3))
+        names = ['T%d' % i for i in range(len(ts))]
+        body = rng.choice(['start: %s' % ' '.join(names), 'start: (%s)+' % ' | '.join(names), 'start: x+\nx: %s | %s %s' % (names[0], names[0], names[1]), 'start: x %s?\nx: %s | x %s' % (names[-1], names[0], names[1])])
+        g = body + '\n' + ''.join('%s: %s\n' % kv for kv in zip(names, ts)) + rng.choice(['%ignore / +/\n', '%ignore " "\n'])
+    out = {'grammar': g, 'fails': [], 'trees': 0, 'inputs': 0}
+    for lexer in ('dynamic', 'dynamic_complete'):
+        try:
+            with guarded(6):
+                pe = Lark(g, parser='earley', lexer=lexer, ambiguity='explicit')
+                pf = Lark(g, parser='earley', lexer=lexer, ambiguity='forest')
+        except (LarkError, Timeout):
+            continue
+        pats = {t.name: re.compile(t.pattern.to_regexp()) for t in pe.terminals}
+        ign = [pats[n] for n in pe.ignore_tokens]
+        def ignorable(s):
+            # the gap is a concatenation of ignored matches
+            ok = {0}
+            for i in range(len(s)):
+                if i in ok:
+                    for r in ign:
+                        for j in range(i + 1, len(s) + 1):
+                            if r.fullmatch(s, i, j): ok.add(j)
+            return len(s) in ok
+        for _ in range(5):
+            text = ''.join(rng.choice(['a', 'b', 'c', ' ', ' ', 'a ', ' b', '  ']) for _ in range(rng.randint(1, 6)))
+            try:
+                with guarded(6):
+                    t = pe.parse(text)
+                    trees = forestlib.expand_ambig(t)[:300]
+                    root = pf.parse(text)
+                    trees += forestlib.expand_ambig(TreeForestTransformer(resolve_ambiguity=False).transform(root))[:300]
+            except (UnexpectedInput, Timeout):
+                continue
+            out['inputs'] += 1
+            for tr in trees:
+                out['trees'] += 1
+                toks = [x for x in tr.scan_values(lambda v: isinstance(v, Token))] if isinstance(tr, Tree) else []
+                # anonymous/filtered tokens are not in the tree: with named, kept terminals only (as generated) the tree holds them all
+                pos, bad = 0, None
+                for tk in toks:
+                    if tk.start_pos < pos:
+                        bad = 'token %r at %d..%d overlaps the text before offset %d already covered' % (str(tk), tk.start_pos, tk.end_pos, pos); break
+                    if not ignorable(text[pos:tk.start_pos]):
+                        bad = 'the gap %r before token %r is not ignored text' % (text[pos:tk.start_pos], str(tk)); break
+                    if text[tk.start_pos:tk.end_pos] != str(tk) or not pats[tk.type].fullmatch(str(tk)):
+                        bad = 'token %r does not match its terminal at its position' % str(tk); break
+                    pos = tk.end_pos
+                if bad is None and not ignorable(text[pos:]):
+                    bad = 'the rest %r after the last token is not ignored text' % text[pos:]
+                if bad:
+                    out['fails'].append({'lexer': lexer, 'text': text, 'why': bad, 'tokens': [[tk.type, str(tk), tk.start_pos, tk.end_pos] for tk in toks]})
+                    break
+            if out['fails']:
+                return out
+    return out
+
+
 def run(ctx, res):
     for f in ctx['known']:
         if f['id'] == 'F14' and f['status'] == 'fixed':
@@ -86,3 +161,21 @@ def run(ctx, res):
                     res.count('skipped_region_of_F20')     # dynamic lexer + %ignore + recursive start symbol: known finding, pinned witness below
                 else:
                     res.violation('single derivation but root.is_ambiguous is True', where)
+    # ---- tiling of every encoded tree, terminals that may contain ignored characters
+    from common import pmap, tier_scale
+    import random as _r
+    rng2 = _r.Random(ctx['seed'] * 1000003 + 2020)
+    seeds = [rng2.randrange(1 << 30) for _ in range(tier_scale(ctx['tier'], 600, 12000) * (3 if ctx['deepen'] else 1))]
+    for seed, (st, rec) in zip(seeds, pmap(_tile_case, seeds, chunksize=8)):
+        if st != 'ok':
+            if st == 'exc':
+                if not exc_in_lark(rec):
+                    raise InfraError(rec)
+                res.violation('parsing raised an unexpected exception', {'seed': seed, 'detail': rec})
+            else:
+                res.inconclusive[st] = res.inconclusive.get(st, 0) + 1
+            continue
+        res.case(['tile', rec['grammar'], seed], nontrivial=rec['trees'] > 1, sample=None)
+        res.count('tiling_grammars'); res.count('tiling_inputs', rec['inputs']); res.count('tiling_trees', rec['trees'])
+        for f in rec['fails']:
+            res.violation('a tree encoded by the forest is not a tiling of the input (tokens overlap, or a gap is not ignored text)', dict(f, grammar=rec['grammar']))
